@@ -10,7 +10,9 @@
 (*               create.unlocking -> done                                  *)
 (*  update/release(u,s) : x.locking -> x.locked -> x.unlocking -> done     *)
 (*  recharge(u): [recharge.locking -> recharge.locked ->] recharge.write   *)
-(*               [-> recharge.unlocking]                                   *)
+(*               [-> recharge.unlocking]; the consumer is notified AFTER   *)
+(*               the lock was given back: while it handles the             *)
+(*               notification, requests it sends for u are served          *)
 (*                                                                         *)
 (* State: the subscriber pool (supi -> object), subscriber objects with    *)
 (* their lock, sessions and the set of applied request ids, the global     *)
